@@ -542,4 +542,39 @@ def runDiag (cfg : LockCfg) (s : State) (i : Nat) : List (Nat × Act) → State 
     | some s' => runDiag cfg s' (i + 1) rest
     | none => (s, some i)
 
+/-! ### Executable check of the decidable core of the invariant (used by the driver on the final
+state of every validated trace, and by the counterexample theorems) -/
+
+/-- The fed-back predicate: COMPLETED, not skipped, id `k`. -/
+def fedPred (k : Nat) (t : Trial) : Bool := t.completed && !t.infeasible && t.id == k
+
+def leFinal (a b : Option Int) : Bool :=
+  match a, b with
+  | some x, some y => decide (x ≤ y)
+  | _, _ => true
+
+def checkBest (st : Study) : Bool :=
+  match st.best with
+  | none => st.trials.all fun t => !t.completed || t.infeasible
+  | some b => st.trials.any fun t => t.id == b && t.completed && !t.infeasible &&
+      st.trials.all fun t' => !(t'.completed && !t'.infeasible) || leFinal t'.final t.final
+
+def checkStudy (maxT : Option Nat) (a : Algo) (st : Study) : Bool :=
+  (st.trials.map (·.id) == List.range' 1 st.trials.length) &&
+  (match maxT with
+   | some m => decide (st.trials.length ≤ m)
+   | none => true) &&
+  (st.numPending == ((st.trials.countP fun t => !t.completed : Nat) : Int)) &&
+  (st.numCompleted == ((st.trials.countP fun t => t.completed : Nat) : Int)) &&
+  (st.numInfeasible == ((st.trials.countP fun t => t.infeasible : Nat) : Int)) &&
+  (a.numFeedbacks == a.fedBack.length) &&
+  (a.numProposals == st.trials.length) &&
+  ((List.range (st.trials.length + 2)).all fun k => a.fedBack.count k == st.trials.countP (fedPred k)) &&
+  (a.fedBack.all fun k => a.fedBack.count k == st.trials.countP (fedPred k)) &&
+  (st.trials.all fun t => t.completed || st.latest t.group == some t.id) &&
+  checkBest st
+
+def checkState (s : State) : Bool :=
+  decide (s.studies.length ≤ 1) && s.studies.all (checkStudy s.maxTrials s.algo)
+
 end Pg.C16
